@@ -27,8 +27,11 @@ def field_row(field):
     if kind == "Integer":
         return ["F", field["name"], "", mark, "", "Integer", "%d...%d" % (number(field["lo"]), number(field["hi"]))]
     if kind == "Decimal":
-        before = field["digits"] - field["frac"]
-        rule = "0...%s%s" % ("9" * before, ("." + "9" * field["frac"]) if field["frac"] else "")
+        def spell(limit, digit):
+            before, after = limit
+            return (digit * before if before else "0") + (("." + digit * after) if after else "")
+        lower, upper = field["limits"]
+        rule = "%s...%s" % (spell(lower, "1"), spell(upper, "9"))
         return ["F", field["name"], "", mark, "", "Decimal", rule]
     length = "...%d" % field["len"][0] if field["len"] else ""
     rule = {"Text": "", "Choice": "a, b", "DateTime": "YYYY-MM-DD", "Pattern": "a*"}[kind]
@@ -106,8 +109,9 @@ def _job(vec):
                     signature = "tsql-tinyint-negative"
                 problems.append("%s: cannot store the range %d...%d" % (where, lo, hi))
         elif field["t"] == "Decimal":
-            if column["size"] != [field["digits"], field["frac"]] or column["type"] != predicted["type"]:
-                problems.append("%s: must be %s(%d, %d)" % (where, predicted["type"], field["digits"], field["frac"]))
+            if column["size"] != list(predicted["size"]) or column["type"] != predicted["type"]:
+                problems.append("%s: must be %s(%d, %d) for rule %r" % (where, predicted["type"], predicted["size"][0],
+                                                                       predicted["size"][1], field_row(field)[6]))
         elif field["t"] == "DateTime":
             if column["type"] != "date":
                 problems.append("%s: must be a date column" % where)
@@ -150,9 +154,6 @@ def run(tier, report):
     if not report.violations:
         for vec in vectors:
             if vec["fields"][0]["t"] == "Decimal":
-                corrupted = core.json.loads(core.json.dumps(vec))
-                corrupted["fields"][0]["digits"] += 1
-                # (the CID is built from the corrupted case, so corrupt the expectation instead)
                 corrupted = core.json.loads(core.json.dumps(vec))
                 corrupted["columns"][0]["quoted"] = not corrupted["columns"][0]["quoted"]
                 if not _job(corrupted)[0]:
